@@ -55,6 +55,10 @@ def build_value(v):
             return build(v)
         if "l" in v:
             return [build_value(x) for x in v["l"]]
+        if "q" in v:
+            # a value with units whose value is a sequence: a = (1, 2) <m>
+            from pvl.collections import Quantity
+            return Quantity([build_value(x) for x in v["q"]], "m")
         return v["s"]
     return v
 
@@ -73,6 +77,8 @@ def snap(x):
         return ("C", type(x).__name__, pairs, mapping, len(x))
     if isinstance(x, list):
         return ("L", [snap(i) for i in x])
+    if isinstance(x, tuple) and hasattr(x, "units"):
+        return ("Q", type(x).__name__, snap(x.value), snap(x.units))
     return ("V", type(x).__name__, repr(x))
 
 
@@ -93,6 +99,8 @@ def walk(x, path):
             x = x[i]
         else:
             x = x[i][1]
+        if isinstance(x, tuple) and hasattr(x, "units"):
+            x = x.value          # the list inside a value with units
     return x
 
 
@@ -103,7 +111,7 @@ def container_paths(spec, prefix=()):
         if isinstance(v, dict) and "c" in v:
             out.append((prefix + (i,), "c"))
             out += container_paths(v, prefix + (i,))
-        elif isinstance(v, dict) and "l" in v:
+        elif isinstance(v, dict) and ("l" in v or "q" in v):
             out.append((prefix + (i,), "l"))
     return out
 
@@ -194,7 +202,9 @@ def nontrivial(case):
 def spec_strategy():
     key = st.sampled_from(["a", "b", "c", "d"])
     scalar = st.one_of(st.integers(0, 3), st.sampled_from(["s", None, 1.5, True]))
-    lst = st.lists(scalar, max_size=3).map(lambda l: {"l": l})
+    lst = st.one_of(st.lists(scalar, max_size=3).map(lambda l: {"l": l}),
+                    st.lists(scalar, max_size=3).map(lambda l: {"l": l}),
+                    st.lists(st.integers(0, 3), max_size=3).map(lambda l: {"q": l}))
     clsname = st.sampled_from(["OrderedMultiDict", "PVLModule", "PVLGroup",
                                "PVLObject"])
 
